@@ -191,6 +191,7 @@ func (s *r2FieldSumm) trace(info *types.Info, ev []vmEv) r2StackEff {
 }
 
 func ruleR2VMTypestate(c *Ctx) []Obligation {
+	r2LoopCtx = c
 	r := vmRoles(c)
 	fn := r.dispatch
 	info := fn.info
@@ -674,6 +675,7 @@ func (ev *r2CloneEval) run(fn *vmFn, env map[types.Object]r2CloneVal, evs []vmEv
 }
 
 func ruleR2SpawnClone(c *Ctx) []Obligation {
+	r2LoopCtx = c
 	r := vmRoles(c)
 	rt := c.Pkg("homescript/runtime")
 	valuePkg := c.Pkg("homescript/runtime/value").Types
